@@ -77,6 +77,19 @@ CHECKS["C03"] = dict(
          "stated here on purpose.",
     design="§6 C03")
 
+CHECKS["C02"] = dict(
+    technique="Coq proofs of the invariances (children swap, name-keyed sequence lookup under any permutation, column permutation/merging, tip states vs partials, one-step pulley principle for any state count) on the C01 model + pairs of equivalent JSON specifications on the implementation and against the model",
+    text="Theorems C02_swap_children / C02_perm_sequences / C02_perm_columns / C02_merge_columns / "
+         "C02_states_vs_partials(_missing) and the pulley identity C02_reroot_one_step_partial (prop/C02.v) for all "
+         "trees, alignments, state counts and reversible semigroup families. The induction from the one-step pulley "
+         "identity to every root placement, and invariance under permutation of the taxa list (leaf indices and the "
+         "vectors indexed by them move together), are not formalised: they are decided by pairs of equivalent "
+         "specifications (data keyed by taxon name / clade / bipartition, realised twice) on the implementation "
+         "(|A-B| <= 1e-9 rel) with every specification also checked against the interval run of the C01 model.",
+    note="Trusted: as C01, plus the generator of equivalent specifications; reroot_any_branch and perm_taxa are partial "
+         "(see text).",
+    design="§6 C02")
+
 PENDING_REASON = "check not built yet in this session (build order in DESIGN.md §9); will be claimed once its theorem file and correspondence run clean"
 
 
